@@ -165,6 +165,40 @@ def task_reference(ctx, cfg, levels, lname, lmax, tname, tref):
               config=dict(grid=grids.cfg_name(cfg), levels=lname, lmax=lmax, tref=tname), scale_floor=1.0)
 
 
+def task_reference_sw(ctx, cfg, nlayers, lmax, with_orography=True):
+  """Total tendency of the layered shallow-water equations equals the independent weak-form reference (ReferenceSW)
+  on alias-free inputs: every coefficient with l <= lmax symbolic in every layer; densities, reference potentials and
+  orography concrete."""
+  from dinosaur import shallow_water as sw, coordinate_systems as cs, layer_coordinates as lc, scales
+  from checks.c05_reference import ReferenceSW
+  grid = grids.make_grid(cfg)
+  coords = cs.CoordinateSystem(grid, lc.LayerCoordinates(nlayers))
+  rng = np.random.default_rng(21 + nlayers)
+  dens = np.sort(np.round(rng.uniform(1.0, 1.6, nlayers), 3))
+  om = 0.7
+  specs = sw.ShallowWaterSpecs(densities=dens, radius=float(grid.radius), angular_velocity=om, gravity_acceleration=1.0, scale=scales.DEFAULT_SCALE)
+  phi_ref = np.round(rng.uniform(0.8, 2.0, nlayers), 3)
+  m, l = grid.modal_mesh
+  sup = grid.mask & (l <= lmax)
+  oro = (rng.uniform(-0.3, 0.3, grid.modal_shape) * sup) if with_orography else None
+  eq = sw.ShallowWaterEquations(coords, specs, oro, phi_ref)
+  ref = ReferenceSW(grid, cfg, densities=dens, omega=om, ref_potential=phi_ref, orography_modal=oro)
+  ctx.encoded(sw.ShallowWaterEquations.explicit_terms, sw.ShallowWaterEquations.implicit_terms, sw.get_density_ratios, sw.state_to_nodal)
+  sp = Space(bits=10)
+  ms = (nlayers,) + grid.modal_shape
+  b = lambda msk: np.broadcast_to(msk, ms)
+  v = PolyArr.variables(sp, 'vor', ms, free=b(sup & (l >= 1)))
+  d = PolyArr.variables(sp, 'div', ms, free=b(sup & (l >= 1)))
+  ph = PolyArr.variables(sp, 'phi', ms, free=b(sup))
+
+  def both(v, d, ph):
+    st = sw.State(v, d, ph)
+    e = eq.explicit_terms(st) + eq.implicit_terms(st)
+    return (e.vorticity, e.divergence, e.potential), ref.tendency(v, d, ph)
+  prove_close(ctx, 'reference.shallow_water_tendency_equals_pointwise_continuous_equations', both, [v, d, ph], sp,
+              config=dict(grid=grids.cfg_name(cfg), layers=nlayers, lmax=lmax, orography=with_orography), scale_floor=1.0)
+
+
 def task_moist_equals_dry(ctx, cfg, levels, lname):
   """Moist equations with zero humidity equal the dry equations for every state."""
   from dinosaur import primitive_equations as pe
@@ -217,7 +251,10 @@ def make_tasks(tier, seed):
   tasks.append(dict(name='moist-eq-dry', fn='task_moist_equals_dry', kw=dict(cfg=cfg, levels=LS['dy2'].tolist(), lname='dy2')))
   refg = dict(M=3, L=6, nlon=16, nlat=8, radius=1.3)
   tasks.append(dict(name='reference-l1', fn='task_reference', kw=dict(cfg=refg, levels=LS['dy3'].tolist(), lname='dy3', lmax=1, tname='linear', tref=np.linspace(0.8, 1.5, 3).tolist())))
+  tasks.append(dict(name='reference-sw-2layer-l1', fn='task_reference_sw', kw=dict(cfg=refg, nlayers=2, lmax=1)))
   if tier != 'quick':
+    tasks.append(dict(name='reference-sw-3layer-l2', fn='task_reference_sw', kw=dict(cfg=dict(M=4, L=8, nlon=22, nlat=11), nlayers=3, lmax=2)))
+    tasks.append(dict(name='reference-sw-1layer-l3', fn='task_reference_sw', kw=dict(cfg=dict(M=4, L=8, nlon=22, nlat=11, radius=2.0), nlayers=1, lmax=3, with_orography=False)))
     tasks.append(dict(name='reference-l2', fn='task_reference', kw=dict(cfg=dict(M=4, L=8, nlon=22, nlat=11), levels=LS['dy3'].tolist(), lname='dy3', lmax=2, tname='random', tref=[1.0, 1.25, 1.4])))
     tasks.append(dict(name='reference-l3-K2', fn='task_reference', kw=dict(cfg=dict(M=4, L=8, nlon=22, nlat=11), levels=LS['dy2'].tolist(), lname='dy2', lmax=3, tname='linear', tref=[0.9, 1.3])))
   if tier != 'quick':
